@@ -42,6 +42,11 @@ pub fn check_stream(case: &StreamCase) -> Outcome {
         out.viol(format!("rule:{}", normalise(v)), format!("{v}; input {} block {}", case.inp.describe(), case.cfg.block_size));
         return out;
     }
+    // well-formedness must not depend on the sink type that receives the stream
+    if let Err((sig, detail)) = other_sinks_agree(&run.stream, &run.bytes, case.inp.seed) {
+        out.viol(sig, detail);
+        return out;
+    }
     if !tr.info.is_last || !tr.other_blocks.is_empty() {
         out.viol("rule:last-block-flag", "STREAMINFO is the only block but is not flagged last".to_string());
         return out;
